@@ -36,6 +36,9 @@ def run(chk):
     # canary: without the ceiling in the hypothesis the estimate could drop -> must be refuted
     name, hyps, goal = lem[0]
     chk.prove("canary:c18:add-keeps-any-value", [h for h in hyps if "4294967295 ==" not in str(h) and "== 4294967295" not in str(h)] + [z3.Int("depth") == 1, z3.Int("width") == 1], z3.Int("q2n") == z3.Int("q2"), expect="refuted")
+    from . import _glue, _oracle
+
+    _glue.glue_part(chk, ["CountMinLinear", "HeavyHitters"], {"add"}, lambda: _oracle.c01_history(chk, 200))
     _cm.crosscheck_linear(chk)
     quick = chk.tier == "quick"
     # constructor clause: _find_base is 200 float Newton steps - outside the verifier's reach
